@@ -38,14 +38,12 @@ EXPLANATION = (
     "concrete model: every assignment of the lhs variables to subterms of the term is tried, and the assignments that make lhs[assignment] == term "
     "must be exactly the yielded bindings.")
 ASSUMPTIONS = [
-    "ranked alphabet: every function symbol is used with one arity in all rules and terms, and function objects / lists do not occur as arguments "
-    "(the preorder flattening used by the discrimination net is injective only then; dask does not state this precondition and its RuleSet docstring "
-    "shows a variadic match, see OUTSIDE and the variadic obligation)",
+    "all obligations except `variadic` use a ranked alphabet (every function symbol has one arity in all rules and terms; no function objects / lists "
+    "as arguments); `variadic` drops that restriction and its violations are the listed known finding C51-mixed-arity (predicate mixed_arity == 1)",
     "variables are strings listed in `vars`; strings not listed are constants; constants are compared with == / hash like dict keys",
     "patterns are taken up to the renaming x <-> y (the first variable of a lhs in preorder is x) except in the strings family",
-    "for term right-hand sides the independent simultaneous instantiation is asserted whenever the subject term contains no string that is also a "
-    "declared variable name of the rule; with such strings (strings family, model variable var_named_leaf = 1) the rewrite is compared with "
-    "rule.subs(bindings) instead, because RewriteRule._apply substitutes sequentially (VERIF_C51_STRICT_SUBST=1 asserts the independent form there too)",
+    "for term right-hand sides the independent simultaneous instantiation is asserted everywhere, also when the subject term contains strings that "
+    "are declared variable names of the rule",
 ]
 STUBS = ["none (dask.rewrite runs unpatched; f, g, h, k3 are inert Python functions used as function symbols)"]
 ENUM = [
@@ -56,12 +54,7 @@ ENUM = [
     "tuples) and the reference's conditions are genuine solver decisions",
 ]
 OUTSIDE = [
-    "mixed arities for one function symbol, function objects as arguments, list arguments (head `list`): the net flattens terms to their preorder "
-    "symbol string, which then no longer determines the term -- there iter_matches yields rules whose instantiated lhs differs from the term "
-    "((f, (g, 'x'), 'y') matches (f, (g, 1, 2))) and can raise IndexError (rule (f, (g, 0, 'x')) on term (f, (g, 0))); obligation variadic, "
-    "enabled with VERIF_C51_VARIADIC=1, reproduces both (all its violations have model variable mixed_arity = 1)",
-    "capture in RewriteRule._apply when the subject term contains strings equal to variable names (sequential substitution): "
-    "rule (f,'x','y') -> (h,'y','x') rewrites (f,'y','a') to (h,'a','a') instead of (h,'a','y')",
+    "function objects as arguments, list arguments (head `list`)",
     "constants of mixed numeric types (1 == True == 1.0 are one dict key), unhashable constants",
     "terms deeper than 2 / arity above 3 / more than 2 rules",
     "which of several matching rules a rewrite applies (the property allows any)",
@@ -84,8 +77,8 @@ BOUNDS = {
                      edge="constants in [0, 3]", arity3="constants in [0, 2]", bottom_up="pattern constants [0, 2], term constants [0, 3], 7 subject shapes"),
 }
 
-VARIADIC = bool(os.environ.get("VERIF_C51_VARIADIC"))
-STRICT_SUBST = bool(os.environ.get("VERIF_C51_STRICT_SUBST"))
+VARIADIC = True      # mixed arities are part of the default run; the violations there are the listed known finding C51-mixed-arity
+STRICT_SUBST = True  # the independent simultaneous instantiation is asserted everywhere (sequential substitution was repaired in /repo)
 
 
 def functions():
